@@ -191,7 +191,13 @@ SUGAR_THOROUGH = {
     x := __ealts1(add(1, 2), (add' 1, 2), 1 -> add(2), 1 -> add' 2)
     z := __ealts2(add(add(x, 2), inc(3)), (add' add(x, 2), inc(3)), add(x, 2) -> add(inc(3)), (add' x, 2) -> add(inc' 3), add(x, 2) -> add(3 -> inc()))
     w := __ealts3(inc(inc(z)), z -> inc() -> inc(), inc(z) -> inc(), (inc' inc(z)), (inc' (inc' z)))
-    pr(__ealts4(add(w, __lit1), (add' w, __lit1), w -> add(__lit1)))
+    pr(w)
+end
+''',
+"call_forms_with_symbolic_argument_kind": HEAD + '''start :: fn do
+    w := __ealts1(inc(2), 2 -> inc(), (inc' 2))
+    pr(__ealts4(add(w, __lit1), (add' w, __lit1), w -> add(__lit1), w -> add' __lit1))
+    pr(__ealts5(cat("a", __lit2), "a" -> cat(__lit2), (cat' "a", __lit2)))
 end
 ''',
 }
